@@ -45,7 +45,7 @@ def main() -> int:
                 "evidence_file": f"evidence/{pid}.json",
                 "replay_cmd_template": f"./check {pid} --replay {{path}}",
                 "engine": "vf",
-                "level_claimed": {"category": "exploration", "text": text, "design_ref": ref},
+                "level_claimed": {"category": "fault_enumeration" if pid == "C17" else "exploration", "text": text, "design_ref": ref},
                 "level_note": note,
                 "technique": technique,
             }
